@@ -164,6 +164,11 @@ func (r *Recorder) Sample(kind string, v any) {
 	r.mu.Lock()
 	if r.sampleSeen[kind] < 2 && len(r.samples) < 12 {
 		r.sampleSeen[kind]++
+		// a sample holding NaN or an infinity has no JSON form: keep its printed form
+		// (the evidence part could not be written otherwise and the run ended inconclusive)
+		if _, err := json.Marshal(v); err != nil {
+			v = fmt.Sprintf("%+v", v)
+		}
 		r.samples = append(r.samples, map[string]any{"kind": kind, "case": v})
 	}
 	r.mu.Unlock()
